@@ -548,18 +548,19 @@ Proof.
   unfold event_time_bytes. cbn [r_unix r_nsec]. rewrite <- app_assoc. exact E.
 Qed.
 
-Theorem encode_buf_spec_lemma : forall schema cfg rec B ser,
+Theorem encode_buf_spec_from_lemma : forall schema cfg rec B ser buffer,
   verify_config schema cfg = true ->
   (length schema <= length (r_fields rec))%nat ->
   new_serializer schema cfg B = Ok ser ->
+  length buffer = B ->
   (length (encode_spec schema cfg rec) < B)%nat ->
-  serialize_record ser rec = Ok (encode_spec schema cfg rec).
+  serialize_record_from ser rec buffer = Ok (encode_spec schema cfg rec).
 Proof.
-  intros schema cfg rec B ser V L Hnew Hfit.
+  intros schema cfg rec B ser buffer V L Hnew Hbuf Hfit.
   destruct (new_serializer_inv _ _ _ _ Hnew) as (Hm & Hk & Hek & Hloc & Hrw & Hb).
   pose proof (fun n ch => verified_chain schema cfg n ch V) as Hver.
   pose proof (locate_all_length _ _ _ Hloc) as Hnloc.
-  unfold serialize_record, encode_record_on. rewrite Hm, Hk, Hek, Hb, Hnloc. rewrite map_length.
+  unfold serialize_record_from, encode_record_on. rewrite Hm, Hk, Hek, Hnloc. rewrite map_length.
   replace (length schema <=? length (r_fields rec))%nat with true by lia. cbn [obind].
   set (fields := firstn (length schema) (r_fields rec)).
   assert (Hfl : length fields = length schema) by (subst fields; rewrite firstn_length; lia).
@@ -576,10 +577,10 @@ Proof.
     rewrite <- !app_assoc. reflexivity. }
   rewrite Hspec in *. clear Hspec.
   (* the buffer: room for the event and at least one byte more *)
-  destruct (split_le (repeat 0 B) (length ([146] ++ ([215; 0] ++ tm) ++ mh ++ F ++ ek ++ eh ++ E))) as (oall & tail & Erep & Hoall).
-  { rewrite repeat_length. lia. }
+  destruct (split_le buffer (length ([146] ++ ([215; 0] ++ tm) ++ mh ++ F ++ ek ++ eh ++ E))) as (oall & tail & Erep & Hoall).
+  { lia. }
   assert (Htail : (0 < length tail)%nat).
-  { pose proof (f_equal (@length N) Erep) as EL. rewrite repeat_length, app_length in EL. lia. }
+  { pose proof (f_equal (@length N) Erep) as EL. rewrite app_length in EL. lia. }
   rewrite Erep. clear Erep.
   rewrite app_length in Hoall. destruct (split_len oall _ _ Hoall) as (o1 & oall2 & -> & Ho1 & Hoall2).
   rewrite app_length in Hoall2. destruct (split_len oall2 _ _ Hoall2) as (o2 & oall3 & -> & Ho2 & Hoall3).
@@ -645,6 +646,18 @@ Proof.
   replace (length (pre0 ++ mh ++ F ++ ek ++ eh ++ E) =? length ((pre0 ++ mh ++ F ++ ek ++ eh ++ E) ++ tail))%nat
     with false by (rewrite (app_length _ tail); lia).
   cbn [obind]. rewrite src_slice_0. subst pre0. rewrite <- ?app_assoc. reflexivity.
+Qed.
+
+Theorem encode_buf_spec_lemma : forall schema cfg rec B ser,
+  verify_config schema cfg = true ->
+  (length schema <= length (r_fields rec))%nat ->
+  new_serializer schema cfg B = Ok ser ->
+  (length (encode_spec schema cfg rec) < B)%nat ->
+  serialize_record ser rec = Ok (encode_spec schema cfg rec).
+Proof.
+  intros schema cfg rec B ser V L Hnew Hfit. unfold serialize_record.
+  destruct (new_serializer_inv _ _ _ _ Hnew) as (_ & _ & _ & _ & _ & Hb).
+  apply (encode_buf_spec_from_lemma schema cfg rec B ser _ V L Hnew); [rewrite repeat_length; exact Hb | exact Hfit].
 Qed.
 
 (* ------------------------------------------------------------------ *)
@@ -832,21 +845,22 @@ Qed.
 (* ------------------------------------------------------------------ *)
 (* the headline: what the serializer emits decodes to the record       *)
 
-Theorem decode_serialized_lemma : forall schema cfg rec B ser,
+Theorem decode_serialized_lemma : forall schema cfg rec B ser buffer,
   verify_config schema cfg = true ->
   (length schema <= length (r_fields rec))%nat ->
   N.of_nat (length schema) < 65535 ->
   N.of_nat (length (c_env cfg)) < 65536 ->
   N.of_nat B <= 4294967296 ->
   new_serializer schema cfg B = Ok ser ->
+  length buffer = B ->
   (length (encode_spec schema cfg rec) < B)%nat ->
   exists stream,
-    serialize_record ser rec = Ok stream /\ stream <> [] /\
+    serialize_record_from ser rec buffer = Ok stream /\ stream <> [] /\
     decode_all stream = Some (event_tree schema cfg rec, []).
 Proof.
-  intros schema cfg rec B ser V L Hns Hne HB Hnew Hfit.
+  intros schema cfg rec B ser buffer V L Hns Hne HB Hnew Hbuf Hfit.
   exists (encode_spec schema cfg rec). split; [|split].
-  - eapply encode_buf_spec_lemma; eassumption.
+  - eapply encode_buf_spec_from_lemma; eassumption.
   - unfold encode_spec. discriminate.
   - apply decode_encode_lemma; [apply strings_small_of_size; lia | assumption | assumption].
 Qed.
